@@ -343,10 +343,63 @@ class RandomProxy(types.ModuleType):
         return getattr(_real_random, name)
 
 
+def _poison(arr, c):
+    """Fills a freshly allocated *uninitialised* array with garbage decided by
+    stream r: what ``numpy.empty`` returns is whatever the heap held, i.e. one
+    more source of nondeterminism.  Code that overwrites the buffer before
+    reading it is unaffected; code that reads it now does so repeatably."""
+    if arr.size == 0 or arr.dtype == object:
+        return arr
+    c.seam_calls["numpy.empty"] += 1
+    kind = arr.dtype.kind
+    style = c.ch.draw("r", 4, "empty-garbage")
+    flat = arr.reshape(-1)
+    if kind in "iu":
+        info = numpy.iinfo(arr.dtype)
+        if style == 0:
+            flat[:] = 0
+        elif style == 1:
+            flat[:] = info.max
+        elif style == 2:
+            flat[:] = info.min if kind == "i" else info.max // 3
+        else:
+            flat[:] = (numpy.arange(flat.shape[0]) * 2654435761 % 251).astype(arr.dtype)
+    elif kind == "f":
+        if style == 0:
+            flat[:] = 0.0
+        elif style == 1:
+            flat[:] = numpy.nan
+        elif style == 2:
+            flat[:] = 1e300 if arr.dtype.itemsize >= 8 else 1e30
+        else:
+            flat[:] = ((numpy.arange(flat.shape[0]) * 2654435761 % 1009) / 7.0 - 50.0).astype(arr.dtype)
+    elif kind == "b":
+        flat[:] = (numpy.arange(flat.shape[0]) + style) % 2 == 0
+    return arr
+
+
+def _empty(*args, **kwargs):
+    arr = numpy.empty(*args, **kwargs)
+    c = _active()
+    if c is not None and getattr(c.entropy, "poison_empty", True):
+        _poison(arr, c)
+    return arr
+
+
+def _empty_like(*args, **kwargs):
+    arr = numpy.empty_like(*args, **kwargs)
+    c = _active()
+    if c is not None and getattr(c.entropy, "poison_empty", True):
+        _poison(arr, c)
+    return arr
+
+
 class NumpyProxy(types.ModuleType):
     def __init__(self):
         types.ModuleType.__init__(self, "numpy")
         object.__setattr__(self, "random", RandomProxy())
+        object.__setattr__(self, "empty", _empty)
+        object.__setattr__(self, "empty_like", _empty_like)
 
     def __getattr__(self, name):
         return getattr(numpy, name)
